@@ -81,6 +81,37 @@ def scalar_inputs(paths):
     return acc
 
 
+def relation(got, num, root, off):
+    """What the code computed, expressed against the inputs (independent of how the code is written)."""
+    if got == "panic":
+        return "panic"
+    if isinstance(got, bool) or got in (0, 1) and False:
+        return str(got)
+    cands = [("num", num), ("num-off", num - off), ("num+off", num + off), ("root", root), ("root-1", root - 1), ("root+off", root + off)]
+    names = [n for n, v in cands if v == got]
+    return "|".join(names) if names else "other"
+
+
+def semantic_nf(mism, band=False):
+    """Set of (order class of the inputs, set of relations consistent with EVERY mismatching cell of that class)."""
+    out = {}
+    for (c, _leaf), vs in mism.items():
+        for num, root, off, got in vs:
+            if band:
+                rel = {str(got)}
+            else:
+                rel = set(relation(got, num, root, off).split("|"))
+            out.setdefault(c, []).append(rel)
+    nf = []
+    for c, rels in sorted(out.items()):
+        common = set.intersection(*rels) if rels else set()
+        if common:
+            nf.append((c, sorted(common)))
+        else:
+            nf.append((c, sorted(set().union(*rels))))
+    return nf
+
+
 def rule_scalar(chk, fb):
     rid = chk.rule(
         "C07.a",
@@ -139,7 +170,7 @@ def rule_scalar(chk, fb):
                 if got not in ref(num, root, off):
                     mism.setdefault((class_of(num, root, off), leaf), []).append((num, root, off, got))
             ok = not mism
-            nf = sorted((c, l) for (c, l) in mism)
+            nf = semantic_nf(mism, band=(role == "band"))
             detail = "%d paths, %d cells compared, inlined %s" % (len(paths), cells, sorted(x.split("::")[-1] for x in it.inlined))
             if mism:
                 ex = []
@@ -197,7 +228,7 @@ def rule_scalar(chk, fb):
                 ex.append("%s: code gives %s = %s for (num=%d, root=%d, off=%d), reference %s" % (c, l, got, num, root, off, sorted(ref(num, root, off))))
             detail += "; MISMATCH " + " | ".join(ex)
         chk.ob(rid, "helper:%s:%s" % (f.split("::")[-1], role), ok, where=fb.loc(f), detail=detail,
-               key="helper:%s:%s%s" % (f.split("::")[-1], role, "" if ok else ":" + nf_hash(sorted(mism))))
+               key="helper:%s:%s%s" % (f.split("::")[-1], role, "" if ok else ":" + nf_hash(semantic_nf(mism, band=(role == "band")))))
 
 
 # ------------------------------------------------------------------------------------------------
@@ -856,6 +887,96 @@ def rule_move_clear(chk, fb):
                 chk.ob(rid, "%s:remove#%d" % (d, n), driver_ok, where="%s:%s" % (bb["file"], t["ln"]), detail="removal driven by %s; full-rectangle enumerators: %s" % (drv, sorted(x.split("::")[-1] for x in enum_fns)))
 
 
+def _from_incoming(b, src, f, depth=0):
+    """src is (_2.f) or a temporary that was moved out of (_2.f)."""
+    if src.get("l") == 2 and any(isinstance(e, dict) and e.get("f") == f for e in src.get("pr", [])):
+        return True
+    if depth > 2 or src.get("pr"):
+        return False
+    for bl in b["blocks"]:
+        for st in bl["s"]:
+            if st["k"] == "assign" and st["lhs"]["l"] == src.get("l") and not st["lhs"].get("pr") and st["rv"]["k"] == "use" and "p" in st["rv"]["op"]:
+                if _from_incoming(b, st["rv"]["op"]["p"], f, depth + 1):
+                    return True
+    return False
+
+def rule_replace_cell(chk, fb):
+    """move/copy put the source cell at the destination *as it was*: the helper that overwrites a stored cell with an
+    incoming one takes value and style from the incoming cell on every path."""
+    CELL = "structs::cell::Cell"
+    r = chk.rule(
+        "C07.e.obj",
+        "a cell placed on an occupied position replaces value and style: in the Cell method that overwrites self from an incoming Cell, the fields holding the value/formula and the style are assigned from the incoming cell on every path",
+        floor=2,
+    )
+    cands = [d for d, b in fb.mir.items() if b.get("self_ty") == CELL and b["kind"] == "AssocFn" and b["argc"] == 2 and fb.ty(b["locals"][2]["t"]) == CELL and fb.ty(b["locals"][1]["t"]) == "&mut " + CELL]
+    if not cands:
+        chk.ob(r, "anchor", False, detail="no Cell method taking an incoming Cell by value")
+        return
+    for d in sorted(cands):
+        b = fb.mir[d]
+        cfg = CFG(b)
+        chk.touch(d)
+        for f in ("cell_value", "style"):
+            blocks = []
+            for bi, bl in enumerate(b["blocks"]):
+                for st in bl["s"]:
+                    if st["k"] != "assign":
+                        continue
+                    pr = st["lhs"].get("pr", [])
+                    if st["lhs"]["l"] == 1 and any(isinstance(e, dict) and e.get("of") == CELL and e.get("f") == f for e in pr):
+                        src = st["rv"].get("op", {}).get("p", {})
+                        if _from_incoming(b, src, f):
+                            blocks.append(bi)
+            always = any(cfg.postdominates(x, 0) or x == 0 for x in blocks)
+            chk.ob(r, "%s:%s" % (d.split("::")[-1], f), always, where=fb.loc(d),
+                   detail="self.%s = incoming.%s %s" % (f, f, "on every path" if always else ("only on some paths (a destination that already has one keeps it)" if blocks else "is never assigned")))
+
+
+def rule_keyed_rows(chk, fb):
+    """Row settings live in a map keyed by the row number, and the number is also stored inside each entry: after the
+    entries' numbers were shifted the map must be re-keyed, whatever else happened."""
+    r = chk.rule(
+        "C07.g",
+        "re-key after shifting: in the container that keeps row settings in a map keyed by row number, every method that shifts the numbers stored in the entries is followed on every path by the method that rebuilds the map from those numbers",
+        floor=2,
+    )
+    owner = None
+    for a, ad in fb.adts.items():
+        if ad["kind"] == "struct":
+            for f in ad["variants"][0]["fields"]:
+                if f["ty"].startswith("std::collections::HashMap<u32, std::boxed::Box<") and f["ty"].endswith("Row>>"):
+                    owner, mapf = a, f["name"]
+    if not owner:
+        chk.ob(r, "anchor", False, detail="no map of row settings keyed by row number found")
+        return
+    rebuild = None
+    for d, b in fb.mir.items():
+        if b.get("self_ty") == owner and b["kind"] == "AssocFn":
+            for bl in b["blocks"]:
+                for st in bl["s"]:
+                    if st["k"] == "assign" and st["lhs"]["l"] == 1 and [e.get("f") for e in st["lhs"].get("pr", []) if isinstance(e, dict)] == [mapf]:
+                        if any(t.get("fn", "").endswith("::collect") for _, t in fb.calls_in(b)):
+                            rebuild = d
+    if not rebuild:
+        chk.ob(r, "rebuild", False, where=fb.adts[owner]["file"], detail="no method rebuilds the map from the entries' own numbers")
+        return
+    for d, b in sorted(fb.mir.items()):
+        if d.split("::{closure")[0] != d:
+            continue
+        root_ty = b.get("self_ty") or b.get("impl_self")
+        if root_ty != owner:
+            continue
+        shifts = [bi for bd in bodies_with_closures(fb, d) for bi, t in fb.calls_in(fb.mir[bd]) if bd == d and t.get("fn", "").split("::")[-1] in ("adjustment_insert_value", "adjustment_remove_value") and "Row" in t.get("fn", "")]
+        if not shifts:
+            continue
+        cfg = CFG(b)
+        rb = [bi for bi, t in fb.calls_in(b) if t.get("fn") == rebuild]
+        ok = all(any(cfg.postdominates(x, s_) for x in rb) for s_ in shifts)
+        chk.touch(d, rebuild)
+        chk.ob(r, "%s" % d.split("::", 2)[-1], ok, where=fb.loc(d), detail="entries are shifted at %d site(s); %s" % (len(shifts), "the map is rebuilt afterwards on every path" if ok else "on some path the map keeps its old keys (settings stay reachable under their old row numbers)"))
+
+
 def run(chk, fb, tier):
     rule_scalar(chk, fb)
     rule_range(chk, fb, tier)
@@ -864,6 +985,8 @@ def run(chk, fb, tier):
     rule_axes(chk, fb)
     rule_move(chk, fb)
     rule_move_clear(chk, fb)
+    rule_replace_cell(chk, fb)
+    rule_keyed_rows(chk, fb)
     rule_unconditional(chk, fb)
     chk.assume("std collections (ThinVec/Vec retain, iteration) behave as documented")
     chk.note("not decided: equality with a reference grid after arbitrary histories (value-level)")
